@@ -80,3 +80,156 @@ PROPS["C14"] = {
     "assumptions": ["time.Time arithmetic is exact for the generated range (nanoseconds since 2020, < 2^62)",
                     "collections.Map iterates in key order (string keys)"],
 }
+
+
+# ------------------------------------------------------------------------------------------------ SdkDec helpers (python)
+P18 = 10 ** 18
+
+
+def tdiv(a, b):
+    q = abs(a) // abs(b)
+    return q if (a >= 0) == (b >= 0) else -q
+
+
+def chop_round(x):
+    if x < 0:
+        return -chop_round(-x)
+    q, r = divmod(x, P18)
+    if r == 0 or r < P18 // 2:
+        return q
+    if r > P18 // 2:
+        return q + 1
+    return q if q % 2 == 0 else q + 1
+
+
+def dmul(a, b):
+    return chop_round(a * b)
+
+
+def dquo(a, b):
+    return chop_round(tdiv(a * P18 * P18, b))
+
+
+def dpower(d, n):
+    if n == 0:
+        return P18
+    tmp = P18
+    i = n
+    while i > 1:
+        if i % 2 != 0:
+            tmp = dmul(tmp, d)
+        i //= 2
+        d = dmul(d, d)
+    return dmul(d, tmp)
+
+
+# ------------------------------------------------------------------------------------------------ C13 inflation
+def infl_provision(p, period):
+    if p["epp"] == 0 or period >= p["max"]:
+        return 0
+    x = period * P18
+    acc = 0
+    fs = p["factors"]
+    for i, f in enumerate(fs):
+        acc += dmul(f, dpower(x, len(fs) - i - 1))
+    v = dmul(acc, 1000000 * P18)
+    if v < 0:
+        return 0
+    return dquo(v, p["epp"] * P18)
+
+
+def infl_mint_of(p, period):
+    prov = infl_provision(p, period)
+    m = tdiv(prov, P18)
+    return m if (prov > 0 and m > 0) else 0
+
+
+def oracle_c13(run, ops, impl):
+    if run["model"] != "infl":
+        return []
+    out = []
+    p = None
+    in_domain = False
+    g = 0
+    for i, (op, ob) in enumerate(zip(ops, impl)):
+        a = op.split()
+        if a[1] == "reset":
+            period, skipped = int(a[2]), int(a[3])
+            p = dict(enabled=a[4] == "1", started=a[5] == "1", epp=int(a[6]), max=int(a[7]), ppy=int(a[8]), ps=int(a[9]), pc=int(a[10]),
+                     pr=int(a[11]), factors=[] if a[12] == "-" else [int(x) for x in a[12].split(",")])
+            n = None          # last finished epoch: known from the first epoch op (epochs are consecutive)
+            start = (period, skipped)
+            in_domain = None  # decided at the first epoch op
+            continue
+        if ob == "panic":
+            out.append(V("C13:panic", {"line": i + 1, "op": op}))
+            in_domain = False
+            continue
+        f = ob.split()
+        if a[1] == "toggle":
+            en = a[2] == "1"
+            p["enabled"] = en
+            p["started"] = p["started"] or en
+            continue
+        if a[1] == "edit":
+            if f[0] == "ok":
+                if a[2] != "-" or a[3] != "-":
+                    in_domain = False    # EpochsPerPeriod / MaxPeriod are fixed per history in the property
+                if a[4] != "-":
+                    p["ppy"] = int(a[4])
+                if a[5] != "-":
+                    p["ps"], p["pc"], p["pr"] = int(a[5]), int(a[6]), int(a[7])
+                if a[8] != "-":
+                    p["factors"] = [int(x) for x in a[8].split(",")]
+            continue
+        if a[1] == "epoch":
+            nn = int(a[2])
+            minted, st, cm, sr = int(f[0]), int(f[1]), int(f[2]), int(f[3])
+            kv = dict(x.split("=") for x in f[4:])
+            if in_domain is None:
+                period, skipped = start
+                n0 = nn - 1
+                k = n0 - skipped
+                E = p["epp"]
+                coh = E > 0 and skipped <= n0 and ((not p["enabled"]) or p["started"]) and \
+                    (p["started"] or (period == 0 and skipped == n0)) and \
+                    ((period < p["max"] and E * period <= k < E * period + E) or (period >= p["max"] and E * p["max"] <= k))
+                in_domain = coh
+                g = k
+            # distribution: always
+            if st + cm + sr != minted or int(kv["bal"]) != 0 or min(st, cm, sr, minted) < 0:
+                out.append(V("C13:distribution", {"line": i + 1, "op": op, "obs": ob}))
+            if minted > 0 and (st != (minted * p["ps"]) // P18 or cm != (minted * p["pc"]) // P18):
+                out.append(V("C13:proportions", {"line": i + 1, "op": op, "obs": ob, "params": {k2: str(v) for k2, v in p.items()}}))
+            if in_domain:
+                positive = all(infl_provision(p, per) > 0 for per in range(0, min(p["max"], 64)))
+                if not positive:
+                    in_domain = False
+            if in_domain:
+                if p["enabled"]:
+                    want = infl_mint_of(p, g // p["epp"])
+                    g += 1
+                else:
+                    want = 0
+                if minted != want:
+                    out.append(V("C13:schedule", {"line": i + 1, "op": op, "minted": minted, "scheduled": want, "enabled_epochs_before": g - (1 if p["enabled"] else 0),
+                                                   "obs": ob}))
+                    in_domain = False
+    return out
+
+
+PROPS["C13"] = {
+    "modules": ["NibiruProofs.C13"],
+    "runs": [{"model": "infl", "n_quick": 250, "n_thorough": 3000, "nontrivial": r"^[1-9]\d* "},
+             {"model": "dec", "n_quick": 400, "n_thorough": 5000, "nontrivial": r"^-?[1-9]"}],
+    "oracle": oracle_c13,
+    "rule": "infl: each case is one generated history on the real x/inflation keeper (real bank/distribution/sudo keepers): counters "
+            "set to a coherent or arbitrary start, then day-epoch ends with consecutive numbers interleaved with ToggleInflation and "
+            "EditInflationParams (valid and invalid) — observations: supply delta, fee-collector / community-pool / sudo-root deltas, "
+            "module balance, CurrentPeriod, NumSkippedEpochs; non-trivial = at least one epoch minted a positive amount. dec: LegacyDec "
+            "operations on boundary-biased operands (half-way banker's cases, up to 315 bits, negative) vs the Lean SdkDec; one op per "
+            "case, non-trivial = non-zero result",
+    "assumptions": ["counters stay below 2^62 (model uses unbounded naturals for uint64/int64)",
+                    "the sudo root is a valid address and the inflation module account has minter permission (genesis)",
+                    "property domain: coherent starting counters (DESIGN §7 C13); C13_incoherent_genesis_witness documents the rest"],
+}
